@@ -159,6 +159,19 @@ def llm_markers(text):
     return [mk_llm(int(a), int(b)) for a, b in LLM_RE.findall(str(text))]
 
 
+def rw_in_text(i, t):
+    """What input rail i turns the user text of turn t into."""
+    return f"{mk_rw_in(i, t)} sanitized input"
+
+
+def rw_out_text(i, text):
+    """What output rail i turns an LLM-lineage text into (other texts are left alone)."""
+    ln = lineage(text)
+    if not ln:
+        return str(text)
+    return " ".join(mk_rw_out(i, t, k) for t, k in ln) + " sanitized output"
+
+
 def refusal_text(cat, i, kind):
     """The bot message a rail utters when it blocks (without rail exceptions)."""
     return SELF_REFUSAL if kind == "self" else f"{mk_refuse(cat, i)} cannot do that"
@@ -245,12 +258,7 @@ class Session:
         return v[idx] if idx < len(v) else "accept"
 
     def rewritten(self, cat, idx, turn, text):
-        if cat == "in":
-            return f"{mk_rw_in(idx, turn)} sanitized input"
-        ln = lineage(text)
-        if not ln:
-            return str(text)
-        return " ".join(mk_rw_out(idx, t, k) for t, k in ln) + " sanitized output"
+        return rw_in_text(idx, turn) if cat == "in" else rw_out_text(idx, text)
 
     def should_fail(self, action_name, k):
         return (action_name, k) in self.faults
